@@ -40,8 +40,8 @@ func cpuNow() int64 {
 
 var workerOut *bufio.Writer
 
-func markOut(desc string) {
-	b, _ := json.Marshal(desc)
+func markOut(unit int64, desc string) {
+	b, _ := json.Marshal(map[string]any{"unit": unit, "desc": desc})
 	workerOut.WriteString("AT ")
 	workerOut.Write(b)
 	workerOut.WriteByte('\n')
@@ -100,7 +100,7 @@ func watchdog() {
 				}
 			}
 			desc, _ := curDesc.Load().(string)
-			b, _ := json.Marshal(map[string]string{"desc": desc, "site": site})
+			b, _ := json.Marshal(map[string]any{"desc": desc, "site": site, "unit": curUnit.Load()})
 			os.Stdout.Write([]byte("HANG " + string(b) + "\n"))
 			os.Exit(3)
 		}
